@@ -182,24 +182,24 @@ def leanchecker(module):
 # ---------------------------------------------------------------- C++ builds
 CONFIGS = {
     # name: (compiler, [flags])
-    'gcc20-ubsan': ('g++', ['-std=c++20', '-O1', '-fsanitize=undefined', '-fsanitize-undefined-trap-on-error']),
-    'gcc23-ubsan': ('g++', ['-std=c++23', '-O1', '-fsanitize=undefined', '-fsanitize-undefined-trap-on-error']),
-    'gcc17-ubsan': ('g++', ['-std=c++17', '-O1', '-fsanitize=undefined', '-fsanitize-undefined-trap-on-error']),
+    'gcc20-ubsan': ('g++', ['-std=c++20', '-O0', '-fsanitize=undefined', '-fsanitize-undefined-trap-on-error']),
+    'gcc23-ubsan': ('g++', ['-std=c++23', '-O0', '-fsanitize=undefined', '-fsanitize-undefined-trap-on-error']),
+    'gcc17-ubsan': ('g++', ['-std=c++17', '-O0', '-fsanitize=undefined', '-fsanitize-undefined-trap-on-error']),
     'gcc23-O0-assert': ('g++', ['-std=c++23', '-O0']),
     'gcc20-O2-ndebug-emul': ('g++', ['-std=c++20', '-O2', '-DNDEBUG', '-DKOKKOS_MDSPAN_VERIF', '-DKOKKOS_MDSPAN_VERIF_FORCE_NUA_EMULATION']),
     'gcc17-O2-assert': ('g++', ['-std=c++17', '-O2']),
     'gcc14-O0-assert-emul': ('g++', ['-std=c++14', '-O0', '-DKOKKOS_MDSPAN_VERIF', '-DKOKKOS_MDSPAN_VERIF_FORCE_NUA_EMULATION']),
     'clang23-O2-ndebug': ('clang++-14', ['-std=c++2b', '-O2', '-DNDEBUG']),
     'clang20-O0-assert': ('clang++-14', ['-std=c++20', '-O0']),
-    'clang20-ubsan': ('clang++-14', ['-std=c++20', '-O1', '-fsanitize=undefined', '-fsanitize-trap=undefined']),
+    'clang20-ubsan': ('clang++-14', ['-std=c++20', '-O0', '-fsanitize=undefined', '-fsanitize-trap=undefined']),
     'clang17-O0-ndebug-emul': ('clang++-14', ['-std=c++17', '-O0', '-DNDEBUG', '-DKOKKOS_MDSPAN_VERIF', '-DKOKKOS_MDSPAN_VERIF_FORCE_NUA_EMULATION']),
     'clang14-O2-ndebug': ('clang++-14', ['-std=c++14', '-O2', '-DNDEBUG']),
     'gcc23-asan': ('g++', ['-std=c++23', '-O1', '-g', '-fsanitize=address,undefined', '-fno-sanitize-recover=all']),
     'gcc20-tsan': ('g++', ['-std=c++20', '-O1', '-g', '-fsanitize=thread']),
     'gcc23-O0-assert-mdspandebug': ('g++', ['-std=c++23', '-O0', '-D_MDSPAN_DEBUG']),
     'clang14-O0-assert': ('clang++-14', ['-std=c++14', '-O0']),
-    'gcc14-ubsan': ('g++', ['-std=c++14', '-O1', '-fsanitize=undefined', '-fsanitize-undefined-trap-on-error']),
-    'clang14-ubsan': ('clang++-14', ['-std=c++14', '-O1', '-fsanitize=undefined', '-fsanitize-trap=undefined']),
+    'gcc14-ubsan': ('g++', ['-std=c++14', '-O0', '-fsanitize=undefined', '-fsanitize-undefined-trap-on-error']),
+    'clang14-ubsan': ('clang++-14', ['-std=c++14', '-O0', '-fsanitize=undefined', '-fsanitize-trap=undefined']),
     'gcc14-O2-ndebug': ('g++', ['-std=c++14', '-O2', '-DNDEBUG']),
     'gcc23-paren-bracket': ('g++', ['-std=c++23', '-O0', '-DMDSPAN_USE_PAREN_OPERATOR=1', '-DMDSPAN_USE_BRACKET_OPERATOR=1']),
 }
